@@ -60,7 +60,7 @@ fn ref_bit<const N: usize>(a: &[u64; N], i: usize) -> bool {
 }
 
 macro_rules! repr_harnesses {
-    ($m:ident, $repr:ident, $n:expr, $unw:expr) => {
+    ($m:ident, $repr:ident, $n:expr, $unw:expr, $unws:expr) => {
         mod $m {
             use super::*;
             fn any() -> $repr {
@@ -121,7 +121,7 @@ macro_rules! repr_harnesses {
                 }
             }
             #[kani::proof]
-            #[kani::unwind($unw)]
+            #[kani::unwind($unws)]
             fn shifts_and_num_bits() {
                 let a = any();
                 let n: u32 = kani::any();
@@ -167,8 +167,8 @@ macro_rules! repr_harnesses {
         }
     };
 }
-repr_harnesses!(fq_repr, FqRepr, 6, 8);
-repr_harnesses!(fr_repr, FrRepr, 4, 6);
+repr_harnesses!(fq_repr, FqRepr, 6, 50, 9);
+repr_harnesses!(fr_repr, FrRepr, 4, 50, 7);
 
 macro_rules! field_harnesses {
     ($m:ident, $f:ident, $repr:ident, $n:expr, $modulus:ident, $tr:path, $unw:expr) => {
@@ -227,8 +227,8 @@ macro_rules! field_harnesses {
         }
     };
 }
-field_harnesses!(fq, Fq, FqRepr, 6, Q, pp::bls12_381::transmute::fq, 8);
-field_harnesses!(fr, Fr, FrRepr, 4, R, pp::bls12_381::transmute::fr, 6);
+field_harnesses!(fq, Fq, FqRepr, 6, Q, pp::bls12_381::transmute::fq, 50);
+field_harnesses!(fr, Fr, FrRepr, 4, R, pp::bls12_381::transmute::fr, 50);
 
 // from_repr accepts exactly the values below the modulus.  The Montgomery multiplication by R^2 on the Ok path does not
 // influence acceptance and is stubbed out (its value is the subject of the S-lia part); the error path formats the value
